@@ -50,7 +50,12 @@ const (
 // SchedState carries the forced picks of a run so they can be replayed.
 //
 //go:norace
-func (w *World) Picks() []int8 { return append([]int8(nil), w.picks...) }
+func (w *World) Picks() []int8 {
+	if w.pickReplay {
+		return append([]int8(nil), w.effPicks...)
+	}
+	return append([]int8(nil), w.picks...)
+}
 
 // SetReplayPicks makes forced picks (task start / exit / block) follow a recording.
 //
@@ -204,6 +209,7 @@ func (w *World) pick(exclude *Task) *Task {
 			w.Stats.TapeClamped++
 			chosen = cand[0]
 		}
+		w.effPicks = append(w.effPicks, int8(chosen.id))
 	} else {
 		switch w.Cfg.Sched {
 		case SchedRandom:
@@ -256,7 +262,7 @@ func (w *World) taskExit(t *Task) {
 //go:norace
 func Yield(site uint32, class int) {
 	w := W
-	if w == nil || !w.schedOn {
+	if w == nil {
 		return
 	}
 	t := w.cur
@@ -267,6 +273,9 @@ func Yield(site uint32, class int) {
 	w.Stats.Yields++
 	cy := t.callYields
 	t.callYields++
+	if !w.schedOn {
+		return
+	}
 	var next *Task
 	switch w.Cfg.Sched {
 	case SchedReplay:
@@ -286,6 +295,7 @@ func Yield(site uint32, class int) {
 			}
 		}
 		if next != nil {
+			src.EffSwitches = append(src.EffSwitches, Switch{Yield: cy, To: int8(next.id)})
 			w.switchTo(t, next, site)
 		}
 		return
